@@ -20,6 +20,10 @@ CLAIMED["C02"] = dict(cat="exploration",
    text="Seeded simulation of histories over {backup of an edited source, stale-index double backup (duplicate blobs), crashed backup (unreferenced packs), duplicated index entry, forget subset, prune with options from the whole option grid, clock advance across keep-delete/keep-pack boundaries on the simulated clock, resurrect a forgotten snapshot then prune}; after every prune each remaining snapshot is read back against its model, check(read_data) must be clean, an independent decoder verifies that every referenced blob is in an unmarked existing pack, and packs whose mark is younger than keep-delete must still exist (non-instant prunes). Part of the backups and prunes run under seeded gate schedules.",
    ref="5 C02", note="early_delete_index is never set; instant_delete is documented to remove already-marked packs, so the keep-delete clause is asserted for non-instant prunes only. Trusted: the simulator's own pack/index decoder and the FsModel comparison.",
    tech="deterministic simulation: generated operation histories on a simulated clock, per-step reference-model read-back + independent store audit")
+CLAIMED["C10"] = dict(cat="exploration",
+   text="Seeded simulation of two commands with separate handles on one SimStore (backup||prune, prune||backup, backup||backup), every backend call of both a scheduling gate; 70% of runs place the second command fully or partly at a drawn position of the first (actor-segmented policy), the rest use random/PCT/starve policies. At every prefix of the combined mutation log that removes a pack or publishes a snapshot an independent decoder checks that every blob referenced by a visible snapshot is physically present; both commands must return (no hang, no panic); after a follow-up prune inside keep-delete, and again after keep-delete has passed on the simulated clock and another prune ran, every snapshot reads back equal to its model and check(read_data) is clean.",
+   ref="5 C10", note="keep-delete is 1 day, the simulated overlap seconds to minutes (the premise). A command that detects the other one and returns Err is counted, not flagged: the property is about data, not about availability. Interleavings are at backend-call granularity.",
+   tech="deterministic simulation: two actors interleaved by a seeded scheduler at backend-op granularity, prefix audit + reference-model read-back")
 NOT_YET = {}
 NA = {
  "C09": "pure function of its arguments (snapshot list, keep options, explicit 'now'): no schedule, clock read, I/O, fault or history for a simulator to own; see DESIGN.md section 6",
